@@ -21,6 +21,7 @@ type Config struct {
 	Deadline time.Time
 	RepoDir  string
 	Known    []evid.Finding
+	Journal  string
 }
 
 // library: what worlds are drawn from.
